@@ -130,6 +130,10 @@ def run(rep):
              'changed() override of a declaration class refreshes the implied set '
              'through Specification.changed on every path (shared with C02 R02.4)',
              floor=3)
+    rep.rule('R20.9', 'iteration order follows the current hierarchy: flattened()/__iro__ of '
+             'every declaration below a changed specification is recomputed - changed() '
+             'notifies every dependent unconditionally, also when only the ORDER of the '
+             'ancestors changed (C02 R02.2)', floor=2)
     rep.decline('the ordered-set laws over all interface DAGs (they depend on '
                 'extends, i.e. on C02/C03)')
 
@@ -232,3 +236,6 @@ def run(rep):
               'no __provides__ or the class\'s own Implements -> _empty; otherwise '
               'strips exactly the last base (the class specification)' if not bad
               else {'problems': sorted(set(bad))[:3]}, node=f)
+    from . import specsem as _s9
+    _s9.changed_recompute(rep, rep.repo.module('interface.py'), 'R20.9')
+    _s9.changed_notify(rep, rep.repo.module('interface.py'), 'R20.9')
